@@ -161,7 +161,7 @@ func (l *lockstep) classList() []string {
 }
 
 func c12Rule() string {
-	return "rapid state machine over every store.Store method (nodes {a,b,c,d,\"\"}, wallets {X,Y,\"\"}, kinds {geth,parity,\"\"}, boundary ages/advances/amounts incl. negative and multi-word, limits 0..5) applied in lock-step and in virtual time to the contract model, the memory driver and the badger driver; after every call error identity and value equality (ActiveHosts as subset+size predicate), full observation of all getters and Stats every 5 steps and at the end; non-trivial = sequence contains a link after trial credit, a re-link, an ActiveHosts limit below supply, or a re-SetNode of a node with tracked peers; distinct by op-kind sequence + classes"
+	return "rapid state machine over every store.Store method (identifier style per case: short {a,b,c,d}/{X,Y}, realistic 128-digit node ids and 42-character wallets sharing long prefixes, or nested ids that are prefixes of one another; plus \"\" and unknown ids incl. strict prefixes / extensions of known ones; kinds {geth,parity,\"\"}, boundary ages/advances/amounts incl. negative and multi-word, limits 0..5) applied in lock-step and in virtual time to the contract model, the memory driver and the badger driver; after every call error identity and value equality (ActiveHosts as subset+size predicate), full observation of all getters and Stats every 5 steps and at the end; non-trivial = sequence contains a link after trial credit, a re-link, an ActiveHosts limit below supply, or a re-SetNode of a node with tracked peers; distinct by op-kind sequence + classes"
 }
 
 func runC12(t *testing.T, onDisk bool) {
@@ -170,6 +170,8 @@ func runC12(t *testing.T, onDisk bool) {
 	rec.Rule(c12Rule())
 	check(t, func(rt *rapid.T) {
 		rapid.SyncTest(rt, func(rt *rapid.T) {
+			style, restore := useStoreAlphabet(rt)
+			defer restore()
 			mem := memory.New()
 			dir := ""
 			if onDisk {
@@ -192,8 +194,8 @@ func runC12(t *testing.T, onDisk bool) {
 			if onDisk {
 				drv = "badger-ondisk"
 			}
-			rec.Case(sig, l.nontrivial(), append(l.classList(), "driver:"+drv), func() interface{} {
-				return map[string]interface{}{"drivers": []string{"model", "memory", drv}, "ops": l.ops, "classes": sortedCopy(l.classList())}
+			rec.Case(style+"|"+sig, l.nontrivial(), append(l.classList(), "driver:"+drv, "identifiers:"+style), func() interface{} {
+				return map[string]interface{}{"drivers": []string{"model", "memory", drv}, "identifier_style": style, "ops": l.ops, "classes": sortedCopy(l.classList())}
 			})
 		})
 	})
